@@ -221,9 +221,12 @@ def g4_batch_construction(prog):
                         continue
                     ci = keys.index(cmps[0])
                     rv = bf.atoms[cmps[0]].term
-                    if rv['op'] != 'Eq':
+                    if rv['op'] not in ('Eq', 'Ne'):
                         r.viol('G4', 'length/check_len_against/not-eq', f.loc(), 'own column length must be compared for equality')
-                    want = lambda vals: vals[ti] and vals[ci]
+                    if rv['op'] == 'Ne':
+                        want = lambda vals: vals[ti] and not vals[ci]
+                    else:
+                        want = lambda vals: vals[ti] and vals[ci]
                 for vals, res in table.items():
                     if res != want(vals):
                         r.viol('G4', 'length/%s/wrong-result' % name, f.loc(),
